@@ -4,7 +4,7 @@
 From Coq Require Import ZArith List Bool NArith.
 Import ListNotations.
 Require Import PV.Core.Obj PV.Core.Val PV.Core.Cls PV.Core.Member PV.Core.CanAssignK PV.Core.CanAssign PV.Core.C04Run.
-Require Import PV.Proofs.C04Laws PV.Proofs.C04Mono PV.Proofs.C04Refl PV.Proofs.C04Witness PV.Gen.ClassTable.
+Require Import PV.Proofs.C04Laws PV.Proofs.C04Mono PV.Proofs.C04Refl PV.Proofs.C04Simple PV.Proofs.C04Sound PV.Proofs.C04Witness PV.Gen.ClassTable.
 
 (* a union is accepted exactly when each member is (every class table, fuel, mode) *)
 Theorem C04_union_right_iff_all : forall ct n e A bs,
@@ -70,6 +70,81 @@ Example C04_refl_ok_example :
                          VLeaf (LNewType 1 c_int); VLeaf (LAny 2)]) = true.
 Proof. exact refl_ok_example. Qed.
 Print Assumptions C04_refl_ok_example.
+
+(* ---- the simple fragment (Any, nominally compared classes, scalar literals, unions of those):
+   what the type-variable solver (C15) manipulates ---- *)
+(* closed form: beyond 3 units of fuel the verdict is TypeVar/Simple.v's s_acc over the atom relation *)
+Theorem C04_simple_closed_form : forall ct n A B, simple A = true -> simple B = true ->
+  can_assign_f ct (S (S (S n))) false A B = acc_simple ct A B.
+Proof. exact simple_closed_form. Qed.
+Print Assumptions C04_simple_closed_form.
+
+(* transitive through a middle value that is not Any, for every class table whose nominal
+   relation is transitive into nominally compared classes *)
+Theorem C04_simple_transitive : forall ct, tassign_transitive ct -> nominal_upward ct ->
+  forall A B C, simple A = true -> simple B = true -> simple C = true -> not_any B = true ->
+  acc_simple ct A B = true -> acc_simple ct B C = true -> acc_simple ct A C = true.
+Proof. exact acc_simple_trans. Qed.
+Print Assumptions C04_simple_transitive.
+
+(* ... and both table facts hold, for all class codes, on the table dumped from the implementation *)
+Theorem C04_table_tassign_transitive : tassign_transitive table.
+Proof. exact table_tassign_transitive. Qed.
+Print Assumptions C04_table_tassign_transitive.
+
+Theorem C04_table_nominal_upward : nominal_upward table.
+Proof. exact table_nominal_upward. Qed.
+Print Assumptions C04_table_nominal_upward.
+
+Theorem C04_simple_transitive_table : forall n A B C,
+  simple A = true -> simple B = true -> simple C = true -> not_any B = true ->
+  can_assign_f table (S (S (S n))) false A B = true -> can_assign_f table (S (S (S n))) false B C = true ->
+  can_assign_f table (S (S (S n))) false A C = true.
+Proof. exact simple_transitive_table. Qed.
+Print Assumptions C04_simple_transitive_table.
+
+Theorem C04_simple_reflexive_table : forall n A,
+  simple A = true -> forallb (atom_ok table) (atoms_of A) = true ->
+  can_assign_f table (S (S (S n))) false A A = true.
+Proof. exact simple_reflexive_table. Qed.
+Print Assumptions C04_simple_reflexive_table.
+
+(* ---- membership-soundness beyond the nominal core.  strict_f (Core/CanAssign.v) derives
+   acceptances with the sound rules only (no bare-generic / variadic-tuple / NewType leniency,
+   scalar literals only); it is a decidable guard that the harness evaluates on every pair. ---- *)
+(* a strict derivation is an acceptance of the full model ... *)
+Theorem C04_strict_implies_accept : forall ct n A B,
+  strict_f ct n A B = true -> can_assign_f ct n false A B = true.
+Proof. exact strict_implies_accept. Qed.
+Print Assumptions C04_strict_implies_accept.
+
+(* ... and is sound for membership: unions and Annotated on both sides, classes, scalar literals,
+   type[C], element containers and mappings through the generic-bases table, fixed tuples;
+   by induction on the derivation, for every class table satisfying four facts *)
+Theorem C04_strict_sound : forall ct, sound_facts ct -> forall n A B,
+  strict_f ct n A B = true -> forall o, member ct B o = true -> member ct A o = true.
+Proof. exact strict_sound. Qed.
+Print Assumptions C04_strict_sound.
+
+(* the four facts hold on the table dumped from the implementation, for all class codes *)
+Theorem C04_table_sound_facts : sound_facts table.
+Proof. exact table_sound_facts. Qed.
+Print Assumptions C04_table_sound_facts.
+
+Theorem C04_strict_sound_table : forall n A B o,
+  strict_f table n A B = true -> member table B o = true -> member table A o = true.
+Proof. exact strict_sound_table. Qed.
+Print Assumptions C04_strict_sound_table.
+
+Example C04_strict_examples :
+  strict_f table 6 (VNode (TGeneric c_Sequence) [VUnion [t_cls c_float; t_none]])
+                   (VNode (TGeneric c_list) [VUnion [t_cls c_bool; t_none]]) = true /\
+  strict_f table 6 (VNode (TGeneric c_Mapping) [t_cls c_str; VNode (TSeq c_tuple [false; false]) [VUnion [t_cls c_int; t_cls 40]; t_cls c_int; t_cls 40]])
+                   (VNode (TGeneric c_dict) [t_cls c_str; VNode (TSeq c_tuple [false; false]) [VUnion [t_cls c_bool; t_cls 41]; t_cls c_bool; t_cls 41]]) = true /\
+  strict_f table 6 (VNode (TSubclass false) [t_cls 40]) (VNode (TSubclass false) [t_cls 41]) = true /\
+  strict_f table 6 (VNode (TGeneric c_list) [t_cls c_int]) (t_cls c_list) = false.
+Proof. exact strict_examples. Qed.
+Print Assumptions C04_strict_examples.
 
 (* obligations over the table dumped from the implementation *)
 Theorem C04_table_nominal_refl : forallb (fun c => tassign table c c) classes = true.
